@@ -4,6 +4,7 @@ from vlib.gen import Unit, Fn, Adt, Raw
 
 T = "crates/compiler/src/typer/toplevel.rs"
 M = "old(env).cur.trait_env.inherent_impls.methods(key)"
+T0 = "old(env).cur.trait_env.inherent_impls"
 
 
 def loops(k, header, kw, body=None):
@@ -11,9 +12,9 @@ def loops(k, header, kw, body=None):
         return None
     return ("invariant __fk0 <= impl_block.methods@.len(), *env == *old(env), implemented_methods@ == names_upto(hir_table, impl_block, __fk0 as int),\n"
             "  diagnostics.errors() >= old(diagnostics).errors(),\n"
-            f"  any_ambiguous({M}.dom(), hir_table, impl_block, __fk0 as int) ==> diagnostics.errors() > old(diagnostics).errors(),\n"
-            f"  forall|n: Seq<char>| methods_to_add@.dom().contains(n) ==> !{M}.dom().contains(n),\n"
-            f"  forall|n: Seq<char>| names_upto(hir_table, impl_block, __fk0 as int).contains(n) && !{M}.dom().contains(n) ==> methods_to_add@.dom().contains(n),\n"
+            f"  any_ambiguous({T0}, key, for_ty, hir_table, impl_block, __fk0 as int) ==> diagnostics.errors() > old(diagnostics).errors(),\n"
+            f"  forall|n: Seq<char>| methods_to_add@.dom().contains(n) ==> !is_taken({T0}, key, for_ty, n),\n"
+            f"  forall|n: Seq<char>| names_upto(hir_table, impl_block, __fk0 as int).contains(n) && !is_taken({T0}, key, for_ty, n) ==> methods_to_add@.dom().contains(n),\n"
             "decreases impl_block.methods@.len() - __fk0,")
 
 
@@ -22,15 +23,16 @@ UNIT = Unit(
     properties=["C17"],
     rules=["attrs", ("strip", "tast::"), ("strip", "hir::"), ("strip", "env::"), "fmtmsg", "for_index", "opt_is_some_and"],
     describe="typer::toplevel::define_inherent_impl, the loop over the methods of one inherent impl block and the merge into the type's method table: "
-             "a method whose name the type already has — from an earlier impl block of the same key or from an earlier entry of this block — is an "
-             "error diagnostic and NEVER replaces the existing definition; every other method is defined afterwards",
+             "a method whose name the type already has — from an earlier impl block of the same key, from an earlier entry of this block, or under the "
+             "OTHER kind of key for the same type constructor (`impl Box[int32]` vs `impl[T] Box[T]`: the two call forms would resolve differently) — is an "
+             "error diagnostic, never replaces an existing definition and is not merged; every other method is defined afterwards",
     trusted=["FRAGMENT inherent_methods: define_inherent_impl from `let mut methods_to_add` to its end; the computation of the impl's key and the "
              "orphan test before it are not in this unit. Inside the loop the statements that build the method's type scheme (from "
              "`let mut all_generics` to the `methods_to_add.insert`, with the FnScheme literal) are replaced by the stub method_scheme (arbitrary "
              "scheme, diagnostics may grow); `entry(key).or_default()` + `methods.extend(..)` is the shim inherent_extend (IndexMap::extend: same-name "
              "entries are replaced); hir::ImplBlock / hir::Def / hir::Fn / HirTable, HashSet<String>, IndexMap<String, FnScheme> are shims",
-             "two impl blocks whose keys differ although the types overlap (`impl Box[int32]` and `impl[T] Box[T]`: Exact vs Constr key) are not "
-             "related by this unit (audit finding A17-F2, note only)"],
+             "toplevel::inherent_method_overlaps (the walk over the impl table that looks for the method under the other kind of key) is a stub trusted to "
+             "compute overlap_defined; try_constr_name is uninterpreted"],
     items=[
         Adt(file="crates/compiler/src/tast.rs", kw="enum", name="Ty", rules=["attrs"]),
         Adt(file="crates/compiler/src/env.rs", kw="enum", name="InherentImplKey", rules=["attrs", ("strip", "tast::")]),
@@ -47,6 +49,7 @@ UNIT = Unit(
                      (re.compile(r"diagnostics\.push\(Diagnostic::new\(\s*Stage::Typer,\s*Severity::Error,\s*rt_msg\(\),?\s*\)\);"), "push_error(diagnostics, rt_msg());", "*"),
                      (re.compile(r"let impl_def = env\s*\.current_mut\(\)\s*\.trait_env\s*\.inherent_impls\s*\.entry\((\w+)\)\s*\.or_default\(\);\s*impl_def\.methods\.extend\((\w+)\);"),
                       r"inherent_extend(env, \1, \2);", 1),
+                     (re.compile(r"inherent_method_overlaps\(env, &key, &for_ty, &(\w+)\)"), r"inherent_method_overlaps(env, &key, &for_ty, string_as_str(&\1))", "*"),
                      (re.compile(r"\.clone\(\)"), ".vclone()", "*")],
            loop_fn=loops,
            obligation="a method name the type already has (earlier impl block of the same key, or earlier in this block) is rejected with an error "
@@ -54,9 +57,10 @@ UNIT = Unit(
            contract=f"""ensures
             forall|n: Seq<char>| {M}.dom().contains(n) ==> final(env).cur.trait_env.inherent_impls.methods(key).dom().contains(n)
                 && final(env).cur.trait_env.inherent_impls.methods(key)[n] == {M}[n],
-            any_ambiguous({M}.dom(), hir_table, impl_block, impl_block.methods@.len() as int) ==> final(diagnostics).errors() > old(diagnostics).errors(),
-            forall|n: Seq<char>| names_upto(hir_table, impl_block, impl_block.methods@.len() as int).contains(n)
+            any_ambiguous({T0}, key, for_ty, hir_table, impl_block, impl_block.methods@.len() as int) ==> final(diagnostics).errors() > old(diagnostics).errors(),
+            forall|n: Seq<char>| names_upto(hir_table, impl_block, impl_block.methods@.len() as int).contains(n) && !overlap_defined({T0}, key, for_ty, n)
                 ==> final(env).cur.trait_env.inherent_impls.methods(key).dom().contains(n),
+            forall|n: Seq<char>| overlap_defined({T0}, key, for_ty, n) && !{M}.dom().contains(n) ==> !final(env).cur.trait_env.inherent_impls.methods(key).dom().contains(n),
             forall|k: InherentImplKey| k != key ==> final(env).cur.trait_env.inherent_impls.methods(k) == old(env).cur.trait_env.inherent_impls.methods(k),"""),
     ],
 )
